@@ -122,7 +122,12 @@ func checkFE(fe int, buf []byte, want vref.Outcome, r feResult) {
 		line, col := vref.LineCol(buf, want.At)
 		vx.Observe("line:"+name, r.line)
 		vx.Observe("col:"+name, r.col)
-		vx.Assert("pos:"+name, vx.And(r.line == line, r.col == col))
+		good := vx.And(r.line == line, r.col == col)
+		if !good && len(buf) > 0 {
+			// class of the last byte (forks only on failing paths)
+			vx.Key("lastcls", vref.ClassSymbol(vx.Concrete(vref.ClassIndex(buf[len(buf)-1]))))
+		}
+		vx.Assert("pos:"+name, good)
 	}
 }
 
